@@ -53,12 +53,39 @@ structure MTok where
   fromTokenEndpoint : Bool := true
   deriving Inhabited
 
+/-- a device authorization as observed -/
+structure MDevice where
+  name : String
+  client : String
+  exp : Nat
+  state : Nat := 0            -- 0 undecided, 1 accepted, 2 rejected
+  gscopes : List String := []
+  gaud : List String := []
+  subject : String := ""
+  used : Bool := false        -- tokens were obtained from it
+  gid : Option Nat := none
+  deriving Inhabited
+
+/-- a pushed authorization request as observed -/
+structure MPar where
+  name : String
+  client : String
+  exp : Nat
+  redirect : String
+  challenge : String
+  method : String
+  rts : List String
+  used : Bool := false
+  deriving Inhabited
+
 structure Book where
   now : Nat := 0
   cfg : List String := []
   clients : List MClient := []
   grants : List MGrant := []
   toks : List MTok := []
+  devices : List MDevice := []
+  pars : List MPar := []
   deriving Inhabited
 
 def Book.cfgv (b : Book) (k : String) : String := kv b.cfg k
@@ -67,6 +94,10 @@ def Book.client (b : Book) (id : String) : Option MClient := b.clients.find? (·
 def Book.grantOfCode (b : Book) (code : String) : Option MGrant := b.grants.find? (·.code == code)
 def Book.grant (b : Book) (gid : Nat) : Option MGrant := b.grants.find? (·.gid == gid)
 def Book.tok (b : Book) (name : String) : Option MTok := b.toks.find? (·.name == name)
+def Book.device (b : Book) (name : String) : Option MDevice := b.devices.find? (·.name == name)
+def Book.parOf (b : Book) (name : String) : Option MPar := b.pars.find? (·.name == name)
+def Book.setDevice (b : Book) (d : MDevice) : Book := { b with devices := b.devices.map (fun x => if x.name == d.name then d else x) }
+def Book.setPar (b : Book) (p : MPar) : Book := { b with pars := b.pars.map (fun x => if x.name == p.name then p else x) }
 def Book.setGrant (b : Book) (g : MGrant) : Book := { b with grants := b.grants.map (fun x => if x.gid == g.gid then g else x) }
 def Book.setTok (b : Book) (t : MTok) : Book := { b with toks := b.toks.map (fun x => if x.name == t.name then t else x) }
 def Book.kill (b : Book) (name why : String) : Book :=
@@ -226,6 +257,56 @@ def check (b : Book) (f : List String) (o : String) : List String :=
       else if client != t.client then
         (if !t.dead && !(k == "err" && errName o == "unauthorized_client/400") then ["C08:foreign-revocation-not-unauthorized_client"] else [])
       else (if k == "err" then ["C08:owner-revocation-refused"] else [])
+  | ["devicePoll", client, cred, dev] =>
+    let cl := b.client client
+    let authed := match cl with | some c => c.isPublic || cred == "1" | none => false
+    let hasGrant := match cl with | some c => c.grants.contains "urn:ietf:params:oauth:grant-type:device_code" | none => false
+    match b.device (descBase dev) with
+    | none => if k == "tokens" then ["C16:tokens-for-unknown-device-code"] else []
+    | some d =>
+      let expired := decide (b.now > d.exp)
+      if k == "tokens" then
+        (if !descExact dev then ["C06:device-code-accepted-tampered"] else []) ++
+        (if !authed then ["C10:device-poll-without-client-authentication"] else []) ++
+        (if d.state != 1 then ["C16:tokens-without-approval"] else []) ++
+        (if expired then ["C16:tokens-after-expiry", "C07:device-code-honoured-after-expiry"] else []) ++
+        (if client != d.client then ["C16:tokens-for-other-client"] else []) ++
+        (if d.used then ["C16:device-code-yielded-tokens-twice"] else []) ++
+        (if outField o "scope" != encListW d.gscopes then ["C16:issued-scopes-differ-from-consent"] else [])
+      else if k == "err" && descExact dev && authed && hasGrant && !d.used then
+        -- exactly one condition applies ⇒ the prescribed answer
+        let e := errName o
+        (if d.state == 0 && !expired && client == d.client && e != "authorization_pending/400" then ["C16:pending-not-authorization_pending"] else []) ++
+        (if d.state == 2 && !expired && client == d.client && e != "access_denied/403" then ["C16:denied-not-access_denied"] else []) ++
+        (if d.state == 1 && expired && client == d.client && e != "expired_token/400" then ["C16:expired-not-expired_token"] else []) ++
+        (if d.state == 1 && !expired && client != d.client && e != "invalid_grant/400" then ["C16:other-client-not-invalid_grant"] else []) ++
+        (if d.state == 1 && !expired && client == d.client then ["C16:approved-device-code-refused"] else [])
+      else []
+  | ["authorizePar", client, uri, _extra, _gs, _ga, _sub] =>
+    match b.parOf uri with
+    | none => if k == "authz" then ["C17:unknown-request_uri-accepted"] else []
+    | some p =>
+      if k == "authz" then
+        (if p.used then ["C17:request_uri-used-twice"] else []) ++
+        (if client != p.client then ["C17:request_uri-used-by-other-client"] else []) ++
+        (if b.now > p.exp then ["C17:request_uri-honoured-after-expiry", "C07:request_uri-honoured-after-expiry"] else [])
+      else []
+  | ["parPush", client, cred, hasUri, _bodySecret, _rts, _redirect, _secure, _state, _nonce, _scopes, _aud, _challenge, _method] =>
+    let authed := match b.client client with | some c => c.isPublic || cred == "1" | none => false
+    if k == "par" then
+      (if !authed then ["C17:push-without-client-authentication"] else []) ++
+      (if hasUri == "1" then ["C17:push-containing-request_uri-accepted"] else [])
+    else []
+  | ["authorize", _client, _rts, _redirect, _secure, _state, _nonce, _scopes, _aud, _gs, _ga, _sub, _challenge, _method] =>
+    if k == "authz" && b.cfgv "enforcePAR" == "1" then ["C17:unpushed-request-accepted-under-enforcement"] else []
+  | ["cc", client, cred, _scopes, _aud] =>
+    match b.client client with
+    | some c =>
+      if k == "tokens" then
+        (if c.isPublic then ["C10:public-client-obtained-client_credentials-token"] else []) ++
+        (if cred != "1" then ["C10:client_credentials-without-client-authentication"] else [])
+      else []
+    | none => if k == "tokens" then ["C10:unknown-client-obtained-token"] else []
   | _ => []
 where
   encListW (xs : List String) : String := String.join (xs.map (fun x => "," ++ x))
@@ -314,8 +395,85 @@ def update (b : Book) (f : List String) (o : String) : Book :=
       if k == "ok" && authed && sigMatches tok && client == t.client && !t.dead then
         b.killGrant t.gid "C08" true
       else b
+  | ["cc", client, _cred, scopes, aud] => directGrant b client (decList scopes) (decList aud) "" o false
+  | ["password", client, _cred, user, _pw, _ok, scopes, aud] => directGrant b client (decList scopes) (decList aud) ("sub-" ++ user) o true
+  | ["deviceAuthorize", client, _cred, _formClient, _scopes, _aud] =>
+    if k != "device" then b else
+    { b with devices := b.devices ++ [{ name := outField o "dc", client := client,
+                                         exp := roundSec (addI b.now (b.cfgNat "deviceLife")) }] }
+  | ["deviceDecide", dev, verdict, gs, ga, sub] =>
+    match b.device dev with
+    | none => b
+    | some d =>
+      if d.state != 0 then b else
+      b.setDevice (if verdict == "accept" then { d with state := 1, gscopes := dedup (decList gs), gaud := dedup (decList ga), subject := sub }
+                   else { d with state := 2 })
+  | ["devicePoll", client, cred, dev] =>
+    match b.device (descBase dev) with
+    | none => b
+    | some d =>
+      if k == "tokens" then
+        let gid := b.grants.length
+        let g : MGrant := { gid := gid, client := d.client, redirect := "", challenge := "", method := "", gscopes := d.gscopes,
+                            gaud := d.gaud, subject := d.subject, code := "", codeExp := 0, hybridAT := "", redeemed := true }
+        let b := { b with grants := b.grants ++ [g] }
+        let b := addTokens b gid d.client o none
+        b.setDevice { d with used := true, gid := some gid }
+      else if k == "err" && sigMatches dev && d.used && b.cfgv "devMark" == "1" then
+        -- the store reports the device code as already used: the tokens issued from it must be revoked
+        let cl := b.client client
+        let authed := match cl with | some c => (c.isPublic || cred == "1") && c.grants.contains "urn:ietf:params:oauth:grant-type:device_code" | none => false
+        match d.gid with
+        | some gid => if authed then b.killGrant gid "C16" true else b
+        | none => b
+      else b
+  | ["parPush", client, _cred, _hasUri, _bodySecret, rts, redirect, _secure, _state, _nonce, _scopes, _aud, challenge, method] =>
+    if k != "par" then b else
+    { b with pars := b.pars ++ [{ name := outField o "uri", client := client, exp := addI b.now (b.cfgNat "parLife"),
+                                   redirect := redirect, challenge := challenge, method := method, rts := decList rts }] }
+  | ["authorizePar", _client, uri, _extra, gs, ga, sub] =>
+    match b.parOf uri with
+    | none => b
+    | some p =>
+      -- the request_uri is consumed by the lookup, whatever happens next
+      let b := b.setPar { p with used := true }
+      if k != "authz" then b else
+      let code := outField o "code"
+      let atk := outField o "at"
+      let gid := b.grants.length
+      let hybrid := p.rts.length > 1
+      let codeLife := b.cfgNat "codeLife"
+      let codeExp := if hybrid then roundSec (addI b.now codeLife) else addI b.now codeLife
+      let g : MGrant := { gid := gid, client := p.client, redirect := p.redirect, challenge := p.challenge, method := p.method,
+                          gscopes := dedup (decList gs), gaud := dedup (decList ga), subject := sub,
+                          code := if code == "?" then "" else code, codeExp := codeExp,
+                          hybridAT := if atk == "?" then "" else atk }
+      let b := { b with grants := b.grants ++ [g] }
+      if atk == "?" then b else
+        { b with toks := b.toks ++ [{ name := atk, kind := 'A', gid := gid, client := p.client,
+                                      exp := some (roundSec (addI b.now (b.cfgNat "atLife"))), fromTokenEndpoint := false }] }
   | _ => b
 where
   dedup (xs : List String) : List String := xs.foldl (fun acc x => if acc.contains x then acc else acc ++ [x]) []
+  /-- record the tokens of a `tokens` outcome for grant `gid` -/
+  addTokens (b : Book) (gid : Nat) (client : String) (o : String) (rtKeep : Option Nat) : Book :=
+    let atk := outField o "at"
+    let rt := outField o "rt"
+    let atTok : MTok := { name := atk, kind := 'A', gid := gid, client := client,
+                          exp := some (roundSec (addI b.now (b.cfgNat "atLife"))), sibling := if rt == "?" then "" else rt }
+    let rtExp := if b.cfgNat "rtLife" > -1 then some (roundSec (addI b.now (b.cfgNat "rtLife"))) else rtKeep
+    let newToks := [atTok] ++ (if rt == "?" then [] else [{ name := rt, kind := 'R', gid := gid, client := client, exp := rtExp, sibling := atk }])
+    { b with toks := b.toks ++ newToks }
+  /-- client_credentials / password: a grant is created at the token endpoint; the application grants what was requested -/
+  directGrant (b : Book) (client : String) (scopes aud : List String) (sub : String) (o : String) (rounded : Bool) : Book :=
+    if outKind o != "tokens" then b else
+    let gid := b.grants.length
+    let g : MGrant := { gid := gid, client := client, redirect := "", challenge := "", method := "", gscopes := dedup scopes,
+                        gaud := dedup aud, subject := sub, code := "", codeExp := 0, hybridAT := "", redeemed := true }
+    let b := { b with grants := b.grants ++ [g] }
+    let b := addTokens b gid client o none
+    -- the client_credentials handler stamps the expiry without rounding
+    if rounded then b else
+      { b with toks := b.toks.map (fun t => if t.gid == gid && t.kind == 'A' then { t with exp := some (addI b.now (b.cfgNat "atLife")) } else t) }
 
 end Fosite.Spec.Monitor
